@@ -90,10 +90,16 @@ func ruleBitList(c *Ctx) {
 			set, gr, st := sc[0], gc[0], sts[0]
 			// the per-bit loop: range over bits; its body block dominates everything per bit
 			var body *ssa.BasicBlock
+			var bitIdx ssa.Value
 			for _, b := range fn.Blocks {
-				if phi, init, ok := loopCounter(b); ok && init == -1 && len(b.Succs) == 2 {
-					_ = phi
-					body = b.Succs[0]
+				if idx, _, init, ok := loopIndex(b); ok && init == 0 && len(b.Succs) == 2 && b.Dominates(set.Block()) {
+					// the per-bit loop: for i over len(bits)
+					nn := NewNormer(c.P)
+					nn.BindParams(fn, "bl", "bits")
+					nn.Bind[idx] = "j"
+					if eq, _ := CondEquivalent(nn.EdgeCond(b, b.Succs[0]), MustRefCond("j < len(bits)")); eq {
+						body, bitIdx = b.Succs[0], idx
+					}
 				}
 			}
 			if body == nil {
@@ -134,10 +140,10 @@ func ruleBitList(c *Ctx) {
 				}
 				c.Check(R2, "utils.(*BitList).AddBit/write-after-growth", set.Pos(), gh != nil && gh.Dominates(set.Block()) && set.Block() != gr.Block() && !gr.Block().Dominates(set.Block()), "SetBit after the capacity loop", "ok")
 				c.expectPoly(R2, "utils.(*BitList).AddBit/write-index", set.Pos(), n, set.Common().Args[1], "bl.count")
-				if phi, _, ok := loopCounter(body.Preds[0]); ok {
-					n.Bind[phi] = "j"
+				if bitIdx != nil {
+					n.Bind[bitIdx] = "j"
 					got := n.Norm(set.Common().Args[2]).asAtom()
-					c.Check(R2, "utils.(*BitList).AddBit/write-value", set.Pos(), got == "bits[1 + j]", "bits[1 + j] (the current bit)", got)
+					c.Check(R2, "utils.(*BitList).AddBit/write-value", set.Pos(), got == "bits[j]", "bits[j] (the current bit)", got)
 				}
 				c.expectPoly(R2, "utils.(*BitList).AddBit/count-increment", st.Pos(), n, st.Val, "bl.count + 1")
 				c.Check(R2, "utils.(*BitList).AddBit/increment-after-write", st.Pos(), dominatesInstr(set, st) && body.Dominates(st.Block()), "count++ after SetBit, once per bit", "ok")
@@ -184,11 +190,13 @@ func ruleBitList(c *Ctx) {
 			continue
 		}
 		call := calls[0]
-		hdr := call.Block().Preds[0]
+		hdr := enclosingLoopHeader(call.Block())
 		var phi *ssa.Phi
-		for _, ins := range hdr.Instrs {
-			if p, ok := ins.(*ssa.Phi); ok && isIntType(p.Type()) {
-				phi = p
+		if hdr != nil {
+			for _, ins := range hdr.Instrs {
+				if p, ok := ins.(*ssa.Phi); ok && isIntType(p.Type()) {
+					phi = p
+				}
 			}
 		}
 		if phi == nil || len(phi.Edges) != 2 {
@@ -255,9 +263,11 @@ func ruleBitList(c *Ctx) {
 			if !ok || ia.X != ssa.Value(mk) {
 				return
 			}
-			if phi, init, ok := loopCounter(b.Preds[0]); ok {
-				n.Bind[phi] = "i"
-				c.Check(R3, "utils.(*BitList).GetBytes/loop-init", phi.Pos(), init == 0, "0", fmt.Sprint(init))
+			if h := enclosingLoopHeader(b); h != nil {
+				if idx, phi, init, ok := loopIndex(h); ok {
+					n.Bind[idx] = "i"
+					c.Check(R3, "utils.(*BitList).GetBytes/loop-init", phi.Pos(), init == 0, "0", fmt.Sprint(init))
+				}
 			}
 			c.expectPoly(R3, "utils.(*BitList).GetBytes/elem-index", st.Pos(), n, ia.Index, "i")
 			got := n.Norm(st.Val).String()
@@ -385,18 +395,39 @@ func ruleBitList(c *Ctx) {
 					c.Undecided(R3, "utils.(*BitList).IterateBytes/advance", sphi.Pos(), "shift/word update is not a two-way choice")
 					continue
 				}
-				for k := range sp.Edges {
-					pred := sp.Block().Preds[k]
-					cond := cAnd(n.ReachCond(cl, send.Block(), pred), n.EdgeCond(pred, sp.Block()))
-					sv, iv := n.Norm(sp.Edges[k]), n.Norm(ip.Edges[k])
-					switch {
-					case pEqual(sv, MustRef("shift - 8")) && pEqual(iv, MustRef("w")):
-						c.expectCond(R3, "utils.(*BitList).IterateBytes/advance-same-word", sp.Pos(), cond, "shift - 8 >= 0")
-					case pEqual(sv, MustRef("24")) && pEqual(iv, MustRef("w + 1")):
-						c.expectCond(R3, "utils.(*BitList).IterateBytes/advance-next-word", sp.Pos(), cond, "shift - 8 < 0")
-					default:
-						c.Check(R3, fmt.Sprintf("utils.(*BitList).IterateBytes/advance-edge%d", k), sp.Pos(), false, "(shift-8, w) or (24, w+1)", "("+sv.String()+", "+iv.String()+")")
+				// shift only takes the values 24, 16, 8, 0: tabulate the transition on that finite domain
+				for _, sh := range []int64{24, 16, 8, 0} {
+					taken := -1
+					for k := range sp.Edges {
+						pred := sp.Block().Preds[k]
+						cond := cAnd(n.ReachCond(cl, send.Block(), pred), n.EdgeCond(pred, sp.Block()))
+						cv := &condVars{bases: map[string]map[int64]bool{}, bools: map[string]bool{}}
+						collect(cond, cv)
+						okAtoms := len(cv.bools) == 0
+						for bname := range cv.bases {
+							if bname != "shift" {
+								okAtoms = false
+							}
+						}
+						if !okAtoms {
+							c.Undecided(R3, "utils.(*BitList).IterateBytes/advance", sp.Pos(), "advance decision depends on more than the shift: "+cond.String())
+							continue
+						}
+						if evalCond(cond, map[string]int64{"shift": sh}, nil) {
+							taken = k
+						}
 					}
+					if taken < 0 {
+						c.Check(R3, fmt.Sprintf("utils.(*BitList).IterateBytes/advance@%d", sh), sp.Pos(), false, "one transition per shift value", "none taken")
+						continue
+					}
+					sv, iv := n.Norm(sp.Edges[taken]), n.Norm(ip.Edges[taken])
+					wantS, wantW := "shift - 8", "w"
+					if sh == 0 {
+						wantS, wantW = "24", "w + 1"
+					}
+					okT := pEqual(iv, MustRef(wantW)) && (pEqual(sv, MustRef(wantS)) || (sh != 0 && pEqual(sv, pConst(sh-8))))
+					c.Check(R3, fmt.Sprintf("utils.(*BitList).IterateBytes/advance@%d", sh), sp.Pos(), okT, "("+wantS+", "+wantW+")", "("+sv.String()+", "+iv.String()+")")
 				}
 			}
 		}
@@ -461,7 +492,6 @@ func ruleGFArith(c *Ctx) {
 	c.Floor(R5, 8)
 	if fn := c.theFunc(R5, "utils.(*GFPoly).Divide"); fn != nil && len(fn.Params) == 2 {
 		n := NewNormer(c.P)
-		n.MaxInline = 0 // keep Degree/GetCoefficient/Invers as named calls; their bodies are pinned separately
 		n.BindParams(fn, "gp", "o")
 		var hdr *ssa.BasicBlock
 		var qphi, rphi *ssa.Phi
@@ -502,17 +532,17 @@ func ruleGFArith(c *Ctx) {
 					back = i
 				}
 			}
-			dg := func(x string) string { return "call:utils.(*GFPoly).Degree(" + x + ")" }
-			lead := func(x string) string { return "call:utils.(*GFPoly).GetCoefficient(" + x + "," + dg(x) + ")" }
-			scale := "call:utils.(*GaloisField).Multiply(gp.gf," + lead("r") + ",call:utils.(*GaloisField).Invers(gp.gf," + lead("o") + "))"
-			dd := pAdd(pAtom(dg("r")), pAtom(dg("o")), -1).String()
+			// Degree, GetCoefficient, Zero and Invers are single-block helpers pinned separately: inlined
+			inv := "gp.gf.ALogTbl[" + MustRef("gp.gf.Size - 1 - gp.gf.LogTbl[o.Coefficients[0]]").String() + "]"
+			scale := "call:utils.(*GaloisField).Multiply(gp.gf,r.Coefficients[0]," + inv + ")"
+			dd := MustRef("len(r.Coefficients) - len(o.Coefficients)").String()
 			wantQ := "call:utils.(*GFPoly).AddOrSubstract(q,call:utils.NewMonominalPoly(gp.gf," + dd + "," + scale + "))"
 			wantR := "call:utils.(*GFPoly).AddOrSubstract(r,call:utils.(*GFPoly).MultByMonominal(o," + dd + "," + scale + "))"
 			gq, gr := n.Norm(qphi.Edges[back]).String(), n.Norm(rphi.Edges[back]).String()
 			c.Check(R5, "utils.(*GFPoly).Divide/quotient-step", qphi.Pos(), gq == wantQ, wantQ, gq)
 			c.Check(R5, "utils.(*GFPoly).Divide/remainder-step", rphi.Pos(), gr == wantR, wantR, gr)
 			body := hdr.Preds[back]
-			want := cAnd(cmpCond(token.GEQ, pAtom(dg("r")), pAtom(dg("o"))), cNot(&Cond{Kind: CBool, Name: "call:utils.(*GFPoly).Zero(r)"}))
+			want := MustRefCond("len(r.Coefficients) >= len(o.Coefficients) && r.Coefficients[0] != 0")
 			c.expectCondC(R5, "utils.(*GFPoly).Divide/while", hdr.Instrs[0].Pos(), n.ReachCond(fn, hdr, body), want)
 		}
 	}
@@ -575,82 +605,118 @@ func ruleGFArith(c *Ctx) {
 	}
 
 	const R4 = "M4-RS-CACHE"
-	c.Doc(R4, "ReedSolomonEncoder.getPolynomial: the cache is extended exactly when degree >= len(cache), by a loop d = len(cache) .. degree that multiplies the last polynomial by (x + alpha^(d-1+Base)) and appends (so index = degree whatever the request order); the result is cache[degree]")
+	c.Doc(R4, "ReedSolomonEncoder.getPolynomial: whenever the cache is extended, the new entry is (previous last entry) x (x + alpha^(len-1+Base)) with len the current cache length (a loop counter is accepted when it provably tracks the length: starts at len(cache), one append and one increment per iteration); extension happens exactly while len(cache) <= degree; the result is cache[degree] - so index = degree whatever the request order")
 	c.Floor(R4, 5)
 	if fn := c.theFunc(R4, "utils.(*ReedSolomonEncoder).getPolynomial"); fn != nil && len(fn.Params) == 2 {
 		n := NewNormer(c.P)
 		n.BindParams(fn, "rs", "degree")
-		var st *ssa.Store
-		for _, s := range fieldStores(fn, fn.Params[0], "polynomes") {
-			st = s
-		}
-		if st == nil {
+		n.AtomAlias["len(rs.polynomes)"] = "LEN"
+		n.AtomAlias["rs.polynomes["+MustRef("LEN - 1").String()+"]"] = "TOP"
+		// the append site, in getPolynomial or in a helper called by it
+		var site *DeepSite
+		c.P.deepEach(fn, 2, func(s DeepSite) {
+			st, ok := s.Ins.(*ssa.Store)
+			if !ok {
+				return
+			}
+			if fa, ok := st.Addr.(*ssa.FieldAddr); ok {
+				stt := fa.X.Type().Underlying().(*types.Pointer).Elem().Underlying().(*types.Struct)
+				if fname(stt.Field(fa.Field)) == "polynomes" {
+					if _, fresh := fa.X.(*ssa.Alloc); !fresh {
+						cp := s
+						site = &cp
+					}
+				}
+			}
+		})
+		if site == nil {
 			c.Check(R4, "utils.(*ReedSolomonEncoder).getPolynomial/append", fn.Pos(), false, "a store extending the cache", "none")
 		} else {
-			body := st.Block()
-			hdr := body.Preds[0]
-			var dphi, lphi *ssa.Phi
-			for _, ins := range hdr.Instrs {
-				if p, ok := ins.(*ssa.Phi); ok {
-					if isIntType(p.Type()) {
-						dphi = p
-					} else {
-						lphi = p
-					}
+			F := site.Fn
+			st := site.Ins.(*ssa.Store)
+			n.Ctx = site.Path
+			// appended value
+			var appended ssa.Value
+			if call, ok := st.Val.(*ssa.Call); ok && len(call.Common().Args) == 2 {
+				if el := variadicElems(call.Common().Args[1]); len(el) == 1 {
+					appended = el[0]
 				}
+				base := n.Norm(call.Common().Args[0]).String()
+				c.Check(R4, "utils.(*ReedSolomonEncoder).getPolynomial/append-base", st.Pos(), base == "rs.polynomes", "append(rs.polynomes, next)", base)
 			}
-			if dphi == nil || lphi == nil {
-				c.Undecided(R4, "utils.(*ReedSolomonEncoder).getPolynomial/loop", st.Pos(), "fill loop state (d, last) not found")
+			if appended == nil {
+				c.Undecided(R4, "utils.(*ReedSolomonEncoder).getPolynomial/appended", st.Pos(), "appended value not found")
 			} else {
-				n.Bind[dphi], n.Bind[lphi] = "d", "last"
-				for ei, e := range dphi.Edges {
-					if hdr.Dominates(hdr.Preds[ei]) {
-						c.expectPoly(R4, "utils.(*ReedSolomonEncoder).getPolynomial/d-step", dphi.Pos(), n, e, "d + 1")
-					} else {
-						c.expectPoly(R4, "utils.(*ReedSolomonEncoder).getPolynomial/d-start", dphi.Pos(), n, e, "len(rs.polynomes)")
+				// loop-carried trackers of the cache length / last entry
+				hdr := enclosingLoopHeader(st.Block())
+				if hdr != nil {
+					for _, ins := range hdr.Instrs {
+						p, ok := ins.(*ssa.Phi)
+						if !ok {
+							break
+						}
+						tracksLen, tracksTop := true, true
+						for ei, e := range p.Edges {
+							if hdr.Dominates(hdr.Preds[ei]) {
+								n.Bind[p] = "LEN"
+								if !pEqual(n.Norm(e), MustRef("LEN + 1")) {
+									tracksLen = false
+								}
+								delete(n.Bind, p)
+								if e != appended {
+									tracksTop = false
+								}
+							} else {
+								v := n.Norm(e).String()
+								if v != "LEN" {
+									tracksLen = false
+								}
+								if v != "TOP" {
+									tracksTop = false
+								}
+							}
+						}
+						if isIntType(p.Type()) && tracksLen {
+							n.Bind[p] = "LEN"
+						} else if !isIntType(p.Type()) && tracksTop {
+							n.Bind[p] = "TOP"
+						}
 					}
+					// one append per iteration: the store is on every path through the loop body
+					onAll := true
+					for _, pr := range hdr.Preds {
+						if hdr.Dominates(pr) && !st.Block().Dominates(pr) {
+							onAll = false
+						}
+					}
+					c.Check(R4, "utils.(*ReedSolomonEncoder).getPolynomial/one-append-per-iteration", st.Pos(), onAll, "exactly one append per loop iteration", fmt.Sprint(onAll))
 				}
-				for ei, e := range lphi.Edges {
-					if !hdr.Dominates(hdr.Preds[ei]) {
-						got := n.Norm(e).String()
-						want := "rs.polynomes[-1 + len(rs.polynomes)]"
-						c.Check(R4, "utils.(*ReedSolomonEncoder).getPolynomial/last-start", lphi.Pos(), got == want, want, got)
-					} else {
-						got := n.Norm(e).String()
-						want := "call:utils.(*GFPoly).Multiply(last,call:utils.NewGFPoly(rs.gf,slice(&alloc:utils.(*ReedSolomonEncoder).getPolynomial.slicelit,,)))"
-						c.Check(R4, "utils.(*ReedSolomonEncoder).getPolynomial/last-step", lphi.Pos(), got == want, want, got)
-						// appended value is the new last
-						if call, ok := st.Val.(*ssa.Call); ok && len(call.Common().Args) == 2 {
-							el := variadicElems(call.Common().Args[1])
-							c.Check(R4, "utils.(*ReedSolomonEncoder).getPolynomial/appends-new", st.Pos(), len(el) == 1 && el[0] == e, "append(cache, next)", "other value appended")
+				got := n.Norm(appended).String()
+				want := "call:utils.(*GFPoly).Multiply(TOP,call:utils.NewGFPoly(rs.gf,slice(&alloc:" + c.P.FuncName(F) + ".slicelit,,)))"
+				c.Check(R4, "utils.(*ReedSolomonEncoder).getPolynomial/next", appended.Pos(), got == want, "last.Multiply(NewGFPoly(gf, {1, root}))", got)
+				// the factor literal {1, ALogTbl[len-1+Base]}
+				if mul, ok := appended.(*ssa.Call); ok && len(mul.Common().Args) == 2 {
+					if ng, ok := mul.Common().Args[1].(*ssa.Call); ok && len(ng.Common().Args) == 2 {
+						el := variadicElems(ng.Common().Args[1])
+						for k, wantE := range map[int]string{0: "1", 1: "rs.gf.ALogTbl[" + MustRef("LEN - 1 + rs.gf.Base").String() + "]"} {
+							gotE := "missing"
+							if el[k] != nil {
+								gotE = n.Norm(el[k]).String()
+							}
+							c.Check(R4, fmt.Sprintf("utils.(*ReedSolomonEncoder).getPolynomial/factor[%d]", k), ng.Pos(), gotE == wantE, wantE, gotE)
 						}
 					}
 				}
-				c.expectCond(R4, "utils.(*ReedSolomonEncoder).getPolynomial/while", dphi.Pos(), n.ReachCond(fn, hdr, body), "d <= degree")
-				// root: the factor literal {1, ALogTbl[d-1+Base]}
-				eachInstr(fn, func(b *ssa.BasicBlock, ins ssa.Instruction) {
-					s2, ok := ins.(*ssa.Store)
-					if !ok || b != body {
-						return
-					}
-					if ia, ok := s2.Addr.(*ssa.IndexAddr); ok {
-						if a, ok := ia.X.(*ssa.Alloc); ok && a.Comment == "slicelit" {
-							k, _ := n.Norm(ia.Index).IsConst()
-							got := n.Norm(s2.Val).String()
-							want := map[int64]string{0: "1", 1: "rs.gf.ALogTbl[-1 + d + rs.gf.Base]"}[k]
-							c.Check(R4, fmt.Sprintf("utils.(*ReedSolomonEncoder).getPolynomial/factor[%d]", k), s2.Pos(), got == want, want, got)
-						}
-					}
-				})
-				c.expectCond(R4, "utils.(*ReedSolomonEncoder).getPolynomial/extend-iff", hdr.Instrs[0].Pos(), n.ReachCond(fn, nil, hdr.Preds[0]), "degree >= len(rs.polynomes)")
+				n.Ctx = nil
+				c.expectCond(R4, "utils.(*ReedSolomonEncoder).getPolynomial/extend-iff", st.Pos(), n.ReachCondDeep(fn, nil, *site), "LEN <= degree")
 			}
 		}
+		n.Ctx = nil
 		for _, ret := range returnsOf(fn) {
 			if len(ret.Block().Preds) == 0 && ret.Block() != fn.Blocks[0] {
 				continue
 			}
 			got := n.Norm(ret.Results[0]).String()
-			// the result is spilled to a local for the deferred unlock: its single store
 			want := "rs.polynomes[degree]"
 			c.Check(R4, "utils.(*ReedSolomonEncoder).getPolynomial/result", ret.Pos(), got == want, want, got)
 		}
@@ -664,4 +730,16 @@ func containsAll(s string, subs ...string) bool {
 		}
 	}
 	return true
+}
+
+// enclosingLoopHeader: the innermost loop header whose loop contains b.
+func enclosingLoopHeader(b *ssa.BasicBlock) *ssa.BasicBlock {
+	for d := b; d != nil; d = d.Idom() {
+		for _, p := range d.Preds {
+			if d.Dominates(p) && (p == b || d == b || reachableWithin(d, b, p)) {
+				return d
+			}
+		}
+	}
+	return nil
 }
